@@ -211,7 +211,14 @@ C03_Fetched(pre, ev, post) ==
        /\ Live(post, pre.ss[ev.sess].sel) THEN
         LET ms == post.mb[pre.ss[ev.sess].sel].msgs
             its == ev.out[ev.sess]
-        IN UNION {
+            a == pre.mb[pre.ss[ev.sess].sel].msgs
+        IN
+        (* a UID FETCH answers for every message its UID set names *)
+        (IF ev.uid /\ Live(pre, pre.ss[ev.sess].sel)
+            /\ \E u \in DenoteUid(ev.set, UidSet(a)) \cap UidSet(ms) :
+                  ~\E k \in DOMAIN its : its[k].k = "FETCH" /\ its[k].uid = u
+         THEN {"C03.UidFetchAnswers"} ELSE {})
+        \cup UNION {
              LET it == its[k] IN
              IF it.k = "FETCH" /\ it.bid # 0 /\ it.infl = "FETCH" THEN
                 (IF it.n \in DOMAIN ms /\ ms[it.n].id # it.bid THEN {"C03.SeqFetchReturnsMessage"} ELSE {})
